@@ -16,7 +16,8 @@
 (*             predicates is as strong as comparing the lists.                      *)
 EXTENDS Params
 
-CONSTANTS MutLevels      \* nesting levels (0, 1, 2) whose lists are varied
+CONSTANTS MutLevels,     \* nesting levels (0, 1, 2) whose lists are varied
+          Vals           \* non-default value codes used in the trees ({1} or {1, 2})
 VARIABLES S, t, pc, obj, rep, out, threw
 vars == <<S, t, pc, obj, rep, out, threw>>
 
@@ -42,7 +43,7 @@ Variants == (IF 0 \in MutLevels THEN Variants0 ELSE {}) \cup
             (IF 1 \in MutLevels THEN Variants1 ELSE {}) \cup
             (IF 2 \in MutLevels THEN Variants2 ELSE {}) \cup {Base}
 
-AllTrees == Trees(T0, <<>>)
+AllTrees == Trees(T0, <<>>, Vals)
 
 Init == /\ S \in Variants /\ t \in AllTrees
         /\ pc = "tree" /\ obj = <<>> /\ rep = {} /\ out = <<>> /\ threw = FALSE
